@@ -65,7 +65,7 @@ def w_op(op) -> str:
         return f"pb {m} {int(op[2])} {op[3]} {w_expr(op[4], op[5])} {w_expr(op[6], op[7])}"
     if k == "sv":
         ans = op[2]
-        return f"sv {m} U" if ans is None else f"sv {m} M {len(ans)}" + "".join(f" {x}" for x in ans)
+        return f"sv {m} U" if ans is None else f"sv {m} M {len(ans)}" + "".join(f" {v} {b}" for v, b in ans)
     if k == "val":
         return f"val {m} {w_lit(op[2])}"
     if k == "ev":
@@ -206,7 +206,8 @@ class Impl:
                 con = ("pb", "=" if op[3] == "==" else op[3], op[4], op[5], op[6], op[7])
             elif k == "sv":
                 sat = m.solve()
-                ans = list(m.solver.get_model()) if sat else None
+                # the solver's model by variable name (so that the model's own numbering is used on the Lean side)
+                ans = [(m.vtable[abs(x)], int(x > 0)) for x in m.solver.get_model() if 0 < abs(x) < len(m.vtable)] if sat else None
                 op = ("sv", i, ans)
                 res = "sat" if sat else "unsat"
                 self.check_solve(i, sat)
@@ -222,10 +223,14 @@ class Impl:
                     want = ev_terms(op[2], op[3], sig) if all(v in sig for (_, v, _) in op[2]) else x
                     if want != x:
                         self.problems.append(("evalexpr_value", {"mgr": i, "got": x, "direct": want}))
-        except KeyError:
-            res = "err:KeyError"
         except Exception as e:
-            res = "err:Exception" if type(e) is Exception else "err:" + type(e).__name__
+            res = "err:" + type(e).__name__
+            # refusals the property allows: heule with k < 3, an operator the ROBDD encoder does not implement
+            # (anything but >= / <=) or an invalid operator string, solve() on a manager holding an unregistered literal
+            expected = (type(e) is Exception and ((k == "he" and op[2] < 3) or (k == "pb" and op[3] not in (">=", "<=")))) \
+                or (type(e) is KeyError and k == "sv" and self.bad[i])
+            if not expected:
+                self.problems.append(("operation-raised", {"op": [str(x) for x in op][:4], "raised": repr(e)[:200]}))
         if res.startswith("err") and k != "sv":
             con = None
             if len(m.clauses) != ncl:
@@ -283,6 +288,14 @@ class Impl:
             return
         s = Solver()
         try:
+            self._exact(i, m, us, s)
+        except Exception as e:
+            self.problems.append(("operation-raised", {"where": "clause translation", "mgr": i, "raised": repr(e)[:200]}))
+        finally:
+            s.delete()
+
+    def _exact(self, i, m, us, s) -> None:
+        if True:
             for clause in m.clauses:
                 s.add_clause([-m.ttable[x.v] if x.s == m.isflipped(x.v) else m.ttable[x.v] for x in clause])
             for v in us:
@@ -298,8 +311,6 @@ class Impl:
                     self.problems.append(("post_history_exact", {"mgr": i, "assignment": sig, "cnf_extends": got,
                                                                   "constraints_hold": want, "violated": bad[:2]}))
                     return
-        finally:
-            s.delete()
 
 
 # ------------------------------------------------------------------ comparison
@@ -392,8 +403,7 @@ def compare_hist(ctx: Ctx, inp, impl: str, model: str, sz: int) -> None:
     if len(a) != len(b) or model in ("bad-op",):
         ctx.disagree("hist", inp, impl[:2000], model[:2000], size=sz)
         return
-    ra = [x for x in a[0].split() if not x.startswith(("v:", "e:"))]
-    rb = [x for x in b[0].split() if not x.startswith(("v:", "e:"))]
+    ra, rb = a[0].split(), b[0].split()
     try:
         table = {}
         ca = canon_state(a[1:-1], a[-1], table)
@@ -426,9 +436,13 @@ def gen_pb(rng, i, names):
         lt = rand_terms(rng, names, rng.randint(1, 5), -9, 23)
     rt = rand_terms(rng, names, rng.choice([0, 0, 0, 1, 2]))
     lc = rng.choice([0, 0, 0, 1, -1, 2])
-    total = sum(abs(c) for (c, _, _) in lt)
-    rc = rng.randint(-2, max(1, total)) if rng.random() < 0.8 else rng.randint(-3, 3)
-    o = rng.choice([">=", ">=", ">=", ">=", "<=", "<=", ">", "<", "=", "=="]) if rng.random() < 0.97 else rng.choice(["!=", "=<"])
+    lo = lc + sum(c for (c, _, _) in lt if c < 0) - sum(c for (c, _, _) in rt if c > 0)
+    hi = lc + sum(c for (c, _, _) in lt if c > 0) - sum(c for (c, _, _) in rt if c < 0)
+    r = rng.random()     # mostly inside the reachable range, half of the time near its middle
+    rc = (lo + hi) // 2 + rng.randint(-2, 2) if r < 0.5 else rng.randint(lo - 1, hi + 1) if r < 0.9 else rng.randint(-3, 3)
+    r = rng.random()
+    o = ">=" if r < 0.45 else "<=" if r < 0.75 else ">" if r < 0.83 else "<" if r < 0.90 else "=" if r < 0.94 \
+        else "==" if r < 0.97 else rng.choice(["!=", "=<"])
     return ("pb", i, rng.random() < 0.5, o, lt, lc, rt, rc)
 
 
@@ -562,7 +576,9 @@ def run_isclause(ctx: Ctx, case, reqs, todo) -> None:
                                                            "isclause": "tautology" if q.clause is None else impl}, size=len(lt) + len(rt))
                     break
     except Exception as e:
-        impl = "err:Exception" if type(e) is Exception else "err:" + type(e).__name__
+        impl = "err:" + type(e).__name__
+        if not (type(e) is Exception and o not in OPSTR):
+            ctx.spec_fail("operation-raised", inp, {"raised": repr(e)[:200]}, size=len(lt) + len(rt))
     reqs.append(f"P isclause {o} {w_expr(lt, lc)} {w_expr(rt, rc)}")
     todo.append(("isclause", inp, impl, len(lt) + len(rt)))
     ctx.case("isclause", reqs[-1], nontrivial=len(lt) + len(rt) >= 2)
@@ -609,7 +625,7 @@ def exhaustive_small(ctx: Ctx, reqs, todo) -> None:
 
 def run(ctx: Ctx) -> None:
     ctx.rule = ("random posting histories: 1–3 managers sharing the ROBDD store (same or different variable names), 2–8 user "
-                "variables each (10–12 in 5% of the histories), 1–8 ops per manager drawn from add_clause / imply / quadratic / "
+                "variables each (10–12 in 2.5% of the histories), 1–8 ops per manager drawn from add_clause / imply / quadratic / "
                 "heule(k ∈ {3,4,5,6} and refused k<3) / pseudoboolencoding (0–6 terms left, 0–2 right, coefficients −4…6 or −9…23 "
                 "incl. 0 and repeated variables, bound around the reachable range, six operator strings + invalid ones, both "
                 "constructions) / solve + value + evalexpr; store reset to [0,1] at the start of each history so that node ids "
@@ -626,10 +642,10 @@ def run(ctx: Ctx) -> None:
             run_history(ctx, s["history"], reqs, todo, "seed")
         elif isinstance(s, dict) and "isclause" in s:
             run_isclause(ctx, s["isclause"], reqs, todo)
-    n = ctx.n(300, 5000)
+    n = ctx.n(1500, 25000)
     for j in range(n):
-        run_history(ctx, gen_history(ctx.rng, big=(j % 20 == 7)), reqs, todo)
-    for _ in range(ctx.n(1500, 40000)):
+        run_history(ctx, gen_history(ctx.rng, big=(j % 40 == 7)), reqs, todo)
+    for _ in range(ctx.n(5000, 100000)):
         run_isclause(ctx, gen_isclause(ctx.rng), reqs, todo)
     if ctx.tier == "thorough" and ctx.budget <= 1.0:
         exhaustive_small(ctx, reqs, todo)
